@@ -232,4 +232,212 @@ theorem exec_simple_above_d {b : Base} {s : St} {top : Act} {rest : List Act} (h
     b.data <:+ ((exec (n + 1) i).run s).2.data :=
   (exec_simple_eff n i s hs).data.frame hd (hr.roomD hf hs)
 
+/-! ## The tables when a non-call instruction fails -/
+
+/-- the tables (functions, scopes, loop records, lazy objects, heap) are the same -/
+structure Tab (s s' : St) : Prop where
+  fns : s'.fns = s.fns
+  scopes : s'.scopes = s.scopes
+  loops : s'.loops = s.loops
+  lazies : s'.lazies = s.lazies
+  heap : s'.heap = s.heap
+
+theorem Tab.refl (s : St) : Tab s s := ⟨rfl, rfl, rfl, rfl, rfl⟩
+theorem Tab.trans {a b c : St} (h1 : Tab a b) (h2 : Tab b c) : Tab a c :=
+  ⟨h2.fns.trans h1.fns, h2.scopes.trans h1.scopes, h2.loops.trans h1.loops, h2.lazies.trans h1.lazies, h2.heap.trans h1.heap⟩
+
+/-- if `m` fails from `s`, the tables are those of `s` -/
+def FT {α} (m : M α) (s : St) : Prop := ∀ e s', m.run s = (.error e, s') → Tab s s'
+
+theorem ft_of_tab {α} {m : M α} {s : St} (h : Tab s (m.run s).2) : FT m s := by
+  intro e s' hr; rw [hr] at h; exact h
+
+theorem tab_bind {α β} {m : M α} {k : α → M β} {s : St} (hm : Tab s (m.run s).2)
+    (hk : ∀ a s1, m.run s = (.ok a, s1) → Tab s1 ((k a).run s1).2) : Tab s ((m >>= k).run s).2 := by
+  rw [run_bind]
+  rcases hr : m.run s with ⟨r, s1⟩
+  rw [hr] at hm
+  cases r with
+  | ok a => exact hm.trans (hk a s1 hr)
+  | error e => exact hm
+
+theorem ft_bind {α β} {m : M α} {k : α → M β} {s : St} (hm : Tab s (m.run s).2)
+    (hk : ∀ a s1, m.run s = (.ok a, s1) → FT (k a) s1) : FT (m >>= k) s := by
+  intro e s' h
+  rw [run_bind] at h
+  rcases hr : m.run s with ⟨r, s1⟩
+  rw [hr] at hm h
+  cases r with
+  | ok a => exact hm.trans (hk a s1 hr e s' h)
+  | error e' => cases h; exact hm
+
+theorem tab_popData (s : St) : Tab s (popData.run s).2 := by
+  rw [run_popData]; split <;> exact ⟨rfl, rfl, rfl, rfl, rfl⟩
+theorem tab_pushData (v : Val) (s : St) : Tab s ((pushData v).run s).2 := ⟨rfl, rfl, rfl, rfl, rfl⟩
+theorem tab_incPc (s : St) : Tab s (incPc.run s).2 := ⟨rfl, rfl, rfl, rfl, rfl⟩
+theorem tab_jumpTo (n : Int) (s : St) : Tab s ((jumpTo n).run s).2 := by
+  unfold jumpTo
+  simp only [run_bind, run_get, run_ite]
+  split <;> exact ⟨rfl, rfl, rfl, rfl, rfl⟩
+theorem tab_popScope (s : St) : Tab s (popScope.run s).2 := by
+  rw [run_popScope]; split <;> exact ⟨rfl, rfl, rfl, rfl, rfl⟩
+theorem tab_popScopes : ∀ (n : Nat) (s : St), Tab s ((popScopes n).run s).2
+  | 0, s => Tab.refl s
+  | n + 1, s => by
+    rw [popScopes]
+    exact tab_bind (tab_popScope s) (fun _ s1 _ => tab_popScopes n s1)
+theorem tab_popN (n : Nat) (s : St) : Tab s ((popN n).run s).2 := by
+  rw [Contain.run_popN]
+  split
+  · exact Tab.refl s
+  · split <;> exact ⟨rfl, rfl, rfl, rfl, rfl⟩
+theorem tab_popToMark (l : Nat) (keep : Bool) : ∀ (fuel : Nat) (s : St), Tab s ((popToMark l keep fuel).run s).2
+  | 0, s => by rw [popToMark]; exact Tab.refl s
+  | fuel + 1, s => by
+    rw [popToMark]
+    refine tab_bind (tab_popData s) (fun v s1 _ => ?_)
+    split
+    · split
+      · split
+        · exact tab_pushData _ _
+        · exact Tab.refl _
+      · exact tab_popToMark l keep fuel s1
+    · exact tab_popToMark l keep fuel s1
+theorem tab_wrangle (a b : Nat) (s : St) : Tab s ((wrangleOptargs a b).run s).2 := by
+  unfold wrangleOptargs
+  split
+  · exact Tab.refl s
+  · split
+    · exact tab_bind (tab_popN _ s) (fun _ s1 _ => tab_pushData _ s1)
+    · exact tab_pushData _ s
+
+theorem ft_bindTop (x : String) (v : Val) (s : St) : FT (bindTop x v) s := by
+  intro e s' h
+  unfold bindTop at h
+  simp only [run_bind, run_get] at h
+  split at h
+  · split at h
+    · split at h
+      · rw [Contain.run_setInScope] at h; cases h
+      · rw [run_err] at h; cases h; exact Tab.refl s
+    · rw [Contain.run_setInScope] at h; cases h
+  · rw [run_hostPanic] at h; cases h; exact Tab.refl s
+
+/-- **A non-call instruction that fails leaves the tables as it found them** (it fails before it
+writes: the operands are taken and checked first). -/
+theorem exec_simple_fail_tab (n : Nat) (i : Instr) (s : St) (hs : simple i = true) : FT (exec (n + 1) i) s := by
+  cases i with
+  | callArr k => cases hs
+  | callExpr c a => cases hs
+  | push v => intro e s' h; rw [exec_push] at h; cases h
+  | pop =>
+    apply ft_of_tab
+    rw [exec_pop]; split <;> exact ⟨rfl, rfl, rfl, rfl, rfl⟩
+  | dup =>
+    apply ft_of_tab
+    rw [exec_dup]; split <;> exact ⟨rfl, rfl, rfl, rfl, rfl⟩
+  | jump o => apply ft_of_tab; rw [exec]; exact tab_bind (Tab.refl s) (fun a s1 _ => tab_jumpTo _ s1)
+  | goto l => apply ft_of_tab; rw [exec]; exact tab_jumpTo _ s
+  | branch d o =>
+    apply ft_of_tab
+    rw [exec]
+    refine tab_bind (tab_popData s) (fun v s1 _ => tab_bind (Tab.refl s1) (fun a s2 _ => ?_))
+    split
+    · exact tab_jumpTo _ _
+    · exact tab_incPc _
+  | envToStack x =>
+    apply ft_of_tab
+    rw [exec]
+    simp only [run_bind, run_get]
+    split
+    · exact tab_bind (tab_pushData _ s) (fun _ s1 _ => tab_incPc s1)
+    · exact Tab.refl s
+  | popStackPutEnv x =>
+    rw [exec]
+    exact ft_bind (tab_popData s) (fun v s1 _ => ft_bind (tab_incPc s1) (fun _ s2 _ => ft_bindTop x v s2))
+  | update x =>
+    rw [exec]
+    refine ft_bind (tab_popData s) (fun v s1 _ => ft_bind (tab_incPc s1) (fun _ s2 _ => ?_))
+    intro e s' h
+    simp only [run_bind, run_get] at h
+    split at h
+    · rw [Contain.run_setInScope] at h; cases h
+    · exact ft_bindTop x v s2 e s' h
+  | ret =>
+    apply ft_of_tab
+    rw [exec]
+    simp only [run_bind, run_get]
+    rcases ha : s.addr with _ | ⟨_ | ⟨fn, pc⟩, rest⟩ <;> exact ⟨rfl, rfl, rfl, rfl, rfl⟩
+  | addScope => rw [exec]; intro e s' h; cases h
+  | addFuncScope t => rw [exec]; intro e s' h; cases h
+  | removeScope =>
+    apply ft_of_tab
+    rw [exec]
+    exact tab_bind (tab_incPc s) (fun _ s1 _ => tab_popScope s1)
+  | createClosure t =>
+    rw [exec]
+    intro e s' h
+    simp only [run_bind, run_incPc, run_get, run_set, run_pushData] at h
+    cases h
+  | prepareCall x k =>
+    apply ft_of_tab
+    rw [exec]
+    simp only [run_bind, run_get]
+    by_cases hv : (!(fnOf s s.curfunc).user && (fnOf s s.curfunc).varargs) = true
+    · simp only [hv, if_true]
+      exact tab_bind (tab_wrangle _ _ s) (fun _ s1 _ => tab_incPc s1)
+    · simp only [hv, if_false, Bool.false_eq_true]
+      first
+        | exact tab_incPc s
+        | exact tab_bind (Tab.refl s) (fun _ s1 _ => tab_incPc s1)
+  | tailGuard x skip =>
+    apply ft_of_tab
+    rw [exec]
+    simp only [run_bind, run_get]
+    split
+    · split
+      · exact tab_incPc s
+      · exact ⟨rfl, rfl, rfl, rfl, rfl⟩
+    · exact ⟨rfl, rfl, rfl, rfl, rfl⟩
+  | pushLazy e =>
+    rw [exec]
+    intro e' s' h
+    simp only [run_bind, run_get, run_set, run_pushData, run_incPc] at h
+    cases h
+  | loopStart l => rw [exec]; exact ft_of_tab (tab_incPc s)
+  | label => rw [exec]; exact ft_of_tab (tab_incPc s)
+  | pushMark l => rw [exec]; exact ft_of_tab (tab_bind (tab_pushData _ s) (fun _ s1 _ => tab_incPc s1))
+  | popUntilMark l =>
+    apply ft_of_tab
+    rw [exec]
+    exact tab_bind (tab_incPc s) (fun _ s1 _ => tab_bind (Tab.refl s1) (fun a s2 _ => tab_popToMark l true _ s2))
+  | clearMark l =>
+    apply ft_of_tab
+    rw [exec]
+    exact tab_bind (Tab.refl s) (fun a s1 _ => tab_bind (tab_popToMark l false _ s1) (fun _ s2 _ => tab_incPc s2))
+  | brk l k =>
+    apply ft_of_tab
+    rw [exec]
+    refine tab_bind (Tab.refl s) (fun a s1 _ => ?_)
+    split
+    · exact Tab.refl _
+    · exact tab_bind (tab_popScopes k s1) (fun _ s2 _ => ⟨rfl, rfl, rfl, rfl, rfl⟩)
+  | cont l k =>
+    apply ft_of_tab
+    rw [exec]
+    refine tab_bind (Tab.refl s) (fun a s1 _ => ?_)
+    split
+    · exact Tab.refl _
+    · exact tab_bind (tab_popScopes k s1) (fun _ s2 _ => ⟨rfl, rfl, rfl, rfl, rfl⟩)
+  | assign =>
+    apply ft_of_tab
+    rw [exec]
+    refine tab_bind (tab_incPc s) (fun _ s1 _ => tab_bind (tab_popData s1) (fun rhs s2 _ =>
+      tab_bind (tab_popData s2) (fun lhs s3 _ => tab_bind (Tab.refl s3) (fun a s4 _ => ?_))))
+    split
+    · split
+      · exact tab_pushData _ _
+      · exact Tab.refl _
+    · exact Tab.refl _
+
 end ZygoVerif.RunInv
